@@ -4,6 +4,9 @@ sid=$1; shift
 patch=/tmp/seed/$sid/SEED/patch.diff
 [ -f "$patch" ] || patch=/verif/seeded/$sid/patch.diff
 cd /verif
+# trial runs on a seeded tree must never overwrite the committed evidence
+export VERIF_EVIDENCE_DIR=/tmp/seed/try/evidence
+mkdir -p $VERIF_EVIDENCE_DIR
 git -C /repo status --short | grep -q . && { echo "repo dirty"; exit 3; }
 git -C /repo apply "$patch" || exit 3
 for c in "$@"; do
